@@ -310,15 +310,99 @@ def run_block(params, known):
     return dict(name=params['name'], evaluations=count, nontrivial_keys=sorted(keys), violations=out_v, known=kn, samples=samples)
 
 
+def run_pairs(params, known):
+    '''Two malformations applied one after the other to the same security block (every ordered
+    pair), with the right key, and every single malformation with a wrong key and with no key.'''
+    from .. import env as _env
+    _env.load_bp()
+    block = params['block']
+    (part, parts) = (params['part'], params['parts'])
+    typ = B.T_BIB if block == 'bib' else B.T_BCB
+    violations = []
+    kinds = set()
+    keys = set()
+    count = 0
+    skipped = 0
+
+    def take(found):
+        for v in found:
+            key = (v['kind'], tuple(sorted(v['signature'].items())))
+            if key not in kinds:
+                kinds.add(key)
+                violations.append(v)
+    menu = malformations(typ)
+    for report in (True, False):
+        base = base_bib(report) if block == 'bib' else base_bcb(report)
+        plain = base['blocks'][-1]['data'] if block == 'bib' else c16.plaintext(16)
+        for accept in (False, True):
+            for (i, (n1, f1)) in enumerate(menu):
+                if i % parts != part:
+                    continue
+                for keymode in ('wrong', 'none'):
+                    bundle = copy_bundle(base)
+                    f1(bundle)
+                    label = dict(block=block, malformation='%s+key-%s' % (n1, keymode), report=report)
+                    (found, _d) = judge_case(label, B.encode(bundle), keymode, accept, 'reject', report, plain)
+                    take(found)
+                    count += 1
+                only1 = copy_bundle(base)
+                f1(only1)
+                only1 = B.encode(only1)
+                for (n2, f2) in menu:
+                    if n2 == n1:
+                        continue
+                    # Only pairs whose two edits are both still visible in the result whatever the
+                    # order (they commute and the result differs from either edit alone): an edit
+                    # that rewrites what the other one damaged could repair it.
+                    try:
+                        (b12, b21, b2) = (copy_bundle(base), copy_bundle(base), copy_bundle(base))
+                        f1(b12)
+                        f2(b12)
+                        f2(b21)
+                        f1(b21)
+                        f2(b2)
+                        data = B.encode(b12)
+                        if data != B.encode(b21) or data in (only1, B.encode(b2), B.encode(base)):
+                            skipped += 1
+                            continue
+                        nums = [x['num'] for x in b12['blocks']]
+                        if len(set(nums)) != len(nums):
+                            skipped += 1     # not a security malformation any more: duplicate block numbers
+                            continue
+                    except Exception:
+                        skipped += 1     # the second edit has nothing left to work on
+                        continue
+                    label = dict(block=block, malformation='%s+%s' % (n1, n2), report=report)
+                    expect = 'either' if (n1 in LENIENT or n2 in LENIENT) else 'reject'
+                    (found, _d) = judge_case(label, data, 'right', accept, expect, report, plain)
+                    take(found)
+                    count += 1
+                    keys.add('%s/%s+%s/%s/%s' % (block, n1, n2, accept, report))
+    kn, out_v = [], []
+    for v in violations:
+        ent = known.match(v) if known is not None else None
+        (kn if ent else out_v).append(dict(v, entry=ent) if ent else v)
+    return dict(name=params['name'], evaluations=count, nontrivial_keys=sorted(keys), violations=out_v, known=kn,
+                samples=[dict(pairs_not_judged_because_edits_interfere=skipped)])
+
+
 def scenarios(tier):
-    return [dict(name='block-%s' % b, kind='enum', runner='run_block', params=dict(name='block-%s' % b, block=b), weight=1)
-            for b in ('bib', 'bcb', 'none')]
+    out = [dict(name='block-%s' % b, kind='enum', runner='run_block', params=dict(name='block-%s' % b, block=b), weight=1)
+           for b in ('bib', 'bcb', 'none')]
+    if tier == 'thorough':
+        parts = 8
+        for b in ('bib', 'bcb'):
+            for part in range(parts):
+                nm = 'pairs-%s-%d/%d' % (b, part + 1, parts)
+                out.append(dict(name=nm, kind='enum', runner='run_pairs', params=dict(name=nm, block=b, part=part, parts=parts), weight=5))
+    return out
 
 
 ASSUMPTIONS = [
     'trusted base: pycose and cryptography primitives',
     'valid integrity blocks are produced by the independent HMAC/AAD producer, valid confidentiality blocks by the real transmit chain (COSE_Encrypt0)',
-    '33 (BIB) / 31 (BCB) malformations applied to the independently decoded structure; x right/wrong/no key x accept on/off x deletion report requested or not',
+    'thorough tier: every pair of different malformations on the same block whose edits commute and both remain visible (an edit that rewrites what the other damaged could repair it; such pairs are skipped), and every malformation with a wrong key and with no key',
+    '37 (BIB) / 32 (BCB) malformations applied to the independently decoded structure; x right/wrong/no key x accept on/off x deletion report requested or not',
     'three structural oddities that still leave every target verified against its real content (an extra result, extra COSE array items, an attached payload that is ignored) are executed but not judged',
     'a bundle the agent cannot decode at all counts as not delivered',
 ]
